@@ -232,8 +232,8 @@ func unmarshalFamily(c *seq.Ctx) {
 			unmarshalOne(c, []byte{byte(a), byte(b)})
 		}
 	}
-	if !c.Quick() {
-		// thorough: every 3-byte string, and every 4-byte string over a 16-byte alphabet
+	{
+		// every 3-byte string, and every 4-byte string over a 16-byte alphabet
 		for a := 0; a < 256; a++ {
 			for b := 0; b < 256; b++ {
 				for d := 0; d < 256; d++ {
